@@ -88,34 +88,38 @@ def centered(x, p):
 
 def classify(inst, sols):
     """Compare every solution with the honest run.  Returns list of findings:
-    dict(klass, root(site text), alt(assignment), wire_index, detail...)."""
+    dict(klass, root(site text), alt(total assignment), wire_index, detail...)."""
     p = inst.p
     out = []
+    red = W.reduce_system(inst.cons, p)
     for s in sols:
-        # free output?
+        if s.dependent and any(W.depends_on_dependent(w, s, p) for w in inst.wires):
+            out.append({"klass": "undecided-dependent", "root": ("?", "?", "?"), "var": None, "alt": {}, "wire_index": -1})
+            continue
+        hit = None
         for wi, w in enumerate(inst.wires):
             dep = W.depends_on_free(w, s.free, p)
             if dep:
-                v = min(dep)
-                alt = dict(s.asg)
-                for f in s.free:
-                    alt[f] = (inst.assignment[f] + 1) % p if f == v else inst.assignment[f]
-                out.append({"klass": "free-output", "root": site_text(inst.sites[v - 1]), "var": v,
-                            "alt": alt, "wire_index": wi})
+                hit = (wi, min(dep))
                 break
-        else:
-            for wi, w in enumerate(inst.wires):
-                got = W.eval_lc(w, {**{f: inst.assignment[f] for f in s.free}, **s.asg}, p)
-                if got != inst.honest[wi]:
-                    alt = {**{f: inst.assignment[f] for f in s.free}, **s.asg}
-                    diff = sorted(v for v in alt if v not in inst.fixed and alt[v] != inst.assignment[v])
-                    root = diff[0] if diff else None
-                    out.append({"klass": "result-not-unique",
-                                "root": site_text(inst.sites[root - 1]) if root else ("?", "?", "?"),
-                                "var": root, "alt": alt, "wire_index": wi,
-                                "honest": inst.honest[wi], "got": got,
-                                "root_centered": centered(alt[root], p) if root else None})
-                    break
+        if hit:
+            wi, v = hit
+            fv = {f: ((inst.assignment[f] + 1) if f == v else inst.assignment[f]) for f in s.free}
+            out.append({"klass": "free-output", "root": site_text(inst.sites[v - 1]), "var": v,
+                        "alt": W.complete(s, red, fv, p), "wire_index": wi})
+            continue
+        alt = W.complete(s, red, inst.assignment, p)
+        for wi, w in enumerate(inst.wires):
+            got = W.eval_lc(w, alt, p)
+            if got != inst.honest[wi]:
+                diff = sorted(v for v in alt if v not in inst.fixed and alt[v] != inst.assignment[v])
+                root = diff[0] if diff else None
+                out.append({"klass": "result-not-unique",
+                            "root": site_text(inst.sites[root - 1]) if root else ("?", "?", "?"),
+                            "var": root, "alt": alt, "wire_index": wi,
+                            "honest": inst.honest[wi], "got": got,
+                            "root_centered": centered(alt[root], p) if root else None})
+                break
     return out
 
 
@@ -136,6 +140,6 @@ def cross_validate(inst):
         return {"agree": None, "brute": len(b), "undecided": len(undec), "nodes": st["nodes"]}
     ex = set()
     for s in sols:
-        ex.update(W.expand(s, p, inst.nvars))
+        ex.update(W.expand(s, p, inst.nvars, cons=W.reduce_system(inst.cons, p)))
     return {"agree": ex == set(b), "brute": len(b), "exact": len(ex), "nodes": st["nodes"],
             "brute_sols": b}
